@@ -702,6 +702,21 @@ func (g *G) forLoop(d int) *S {
 	g.tag("for")
 	et := lib.Pick(g.r, []*Ty{TInt, TInt, Arr(TInt), Opt(TInt), StructT(0)})
 	it := g.expr(Arr(et), d-1, false)
+	// the body must not mutate a container that is being iterated (the real engines raise
+	// ContainerMutatedDuringIterationError; the model iterates a snapshot): freeze every variable the
+	// iterated expression mentions
+	var frozen []*Var
+	walkVars(it, func(v *Var) {
+		if v.Mut {
+			v.Mut = false
+			frozen = append(frozen, v)
+		}
+	})
+	defer func() {
+		for _, v := range frozen {
+			v.Mut = true
+		}
+	}()
 	g.push()
 	g.nvar++
 	x := &Var{Name: fmt.Sprintf("v%d", g.nvar), Id: g.nvar, T: et, Mut: false, Loop: true}
@@ -711,4 +726,20 @@ func (g *G) forLoop(d int) *S {
 	g.loops--
 	g.pop()
 	return &S{Op: "for", X: x, Conv: et.Depth(), Ex: it, B1: body}
+}
+
+// walkVars calls f on every variable occurrence of an expression.
+func walkVars(e *E, f func(*Var)) {
+	if e == nil {
+		return
+	}
+	if e.Op == "var" {
+		f(e.X)
+	}
+	walkVars(e.A, f)
+	walkVars(e.Bx, f)
+	walkVars(e.C, f)
+	for _, x := range e.Es {
+		walkVars(x, f)
+	}
 }
